@@ -12,6 +12,9 @@ CONSTANTS
   NumpyOps <- None_
   ReaderPerBlock = FALSE
   OverwriteTags <- N_OverTags
+  StickyKwargs = FALSE
+  LazySetitemLost = FALSE
+  SharedHandle = FALSE
 VIEW View
 INVARIANT SameAsNumpy
 CHECK_DEADLOCK FALSE
